@@ -44,6 +44,17 @@ Lemma validator_matches_code :
   length validator_table = 720%nat /\ forallb validator_row_ok validator_table = true.
 Proof. split; vm_compute; reflexivity. Qed.
 
+
+(* the expiry boundary of the real PortMapping.IsExpired / IsValid, sampled at offsets from 1 ms to 1 h on both sides of now:
+   expired exactly when ExpiresAt is in the past (no tolerance, no grace period), valid exactly when it is not — which is what
+   m_expired means in the model (MExp1ms .. MExp25s are expired, MSoon60s is not) *)
+Definition expiry_row_ok (row : N * bool * (bool * bool)) : bool :=
+  let '(_, past, (isexp, isvalid)) := row in Bool.eqb isexp past && Bool.eqb isvalid (negb past).
+Lemma expiry_boundary_matches_code :
+  length expiry_table = 16%nat /\ forallb expiry_row_ok expiry_table = true /\
+  existsb (fun row => let '(off, past, _) := row in past && N.eqb off 1) expiry_table = true.
+Proof. repeat split; vm_compute; reflexivity. Qed.
+
 (* the table driven through the real dispatcher has exactly the cells of Model.all_cells *)
 Lemma table_dims_match : fold_right N.mul 1 table_dims = N.of_nat (length all_cells).
 Proof. vm_compute. reflexivity. Qed.
